@@ -3,6 +3,7 @@ import RactorModel.Lemmas.AdmissionCore
 import RactorModel.Lemmas.AdmissionLate
 import RactorModel.Lemmas.AdmissionIds
 import RactorModel.Lemmas.AdmissionQueue
+import RactorModel.Lemmas.AdmissionOracle
 
 /-!
 # C07 — drain processes everything accepted and admits nothing afterwards
@@ -132,6 +133,24 @@ theorem drain_completes (progs : List (List Op)) (sched : List Tid)
   · exact Or.inr ⟨h, Q.stopped h⟩
   · exact Or.inl h
 
+/-- Every message accepted before the drain completed is handled before the actor exits with
+"Drained": when the receiver has dequeued the marker, everything that was ever enqueued has been
+dequeued — nothing is left in the channel and nothing was flushed. -/
+theorem drained_exit_handled_everything (progs : List (List Op)) (sched : List Tid)
+    (h : Item.drain ∈ (run (init progs) sched).sh.deqd) :
+    (run (init progs) sched).sh.handled = msgIds (run (init progs) sched).sh.enq ∧
+    (run (init progs) sched).sh.queue = [] ∧ (run (init progs) sched).sh.flushed = [] := by
+  have I := inv_run _ sched (inv_init progs)
+  have Q := qinv_run _ sched (qinv_init progs)
+  generalize run (init progs) sched = g at *
+  have hl := I.marker_last
+  rw [Q.conserve, List.append_assoc] at hl
+  have hb := markerLast_prefix_all _ _ hl h
+  have hq : g.sh.queue = [] := (List.append_eq_nil_iff.mp hb).2
+  have hf : g.sh.flushed = [] := (List.append_eq_nil_iff.mp hb).1
+  refine ⟨?_, hq, hf⟩
+  rw [Q.handled_eq, Q.conserve, hq, hf]; simp
+
 /-- (6) *A repeated drain is harmless*: once the marker bit is set (some drain completed) and the
 status is at least `Draining`, a whole further `drain()` — its three atomic steps, run from any
 state in any thread — changes nothing of the shared state except logging its `Ok` return.
@@ -142,7 +161,7 @@ theorem repeated_drain_changes_nothing (s : Shared) (parent : Frame) (rest : Lis
       stepThread s (⟨.dClose, 0, false, [], false⟩ :: parent :: rest) = some (s1, st1) ∧
       stepThread s1 st1 = some (s2, st2) ∧
       stepThread s2 st2 = some ({ s with rets := s.rets ++ [⟨.drain, 0, .ok, false⟩] }, parent :: rest) := by
-  obtain ⟨⟨wc, wm, wn⟩, status, queue, rxOpen, rxStopped, enq, deqd, handled, flushed, dex, mdrop,
+  obtain ⟨⟨wc, wm, wn⟩, status, queue, rxOpen, rxStopped, sbo, enq, deqd, handled, flushed, dex, mdrop,
     nextId, rets⟩ := s
   simp only at hm hc hst
   subst hm hc
@@ -152,6 +171,16 @@ theorem repeated_drain_changes_nothing (s : Shared) (parent : Frame) (rest : Lis
     subst this
     simp [stepThread, finish, kindOf, mRet, markerCond, stDraining, stStopping]
   · simp [stepThread, finish, kindOf, mRet, markerCond, h]
+
+/-- **The run-time oracle is a theorem of the model.** `Obs.violations` — the very function the
+driver evaluates on the implementation's end-of-case observations (handled at most once and only
+if Ok, every Ok handled unless stopped, nothing admitted after the close, count 0 and closed ⇒
+marker at quiescence, exactly one "Drained" exit after a drain, none without) — is empty for every
+end state of the model: all programs, all schedules, no op in flight, receiver ran until it blocked. -/
+theorem oracle_holds_of_model (progs : List (List Op)) (sched : List Tid)
+    (he : endState (run (init progs) sched) = true) :
+    (obsOf (run (init progs) sched)).violations = [] :=
+  violations_nil (reach_run progs sched) he
 
 /-! ### Source guards (E-SRC): the tables the model depends on, re-extracted from the sources on
 every run -/
@@ -198,6 +227,10 @@ example : (run (init [[.send [.drain] false]]) (List.replicate 15 (.t 0))).sh.en
     ∧ (run (init [[.send [.drain] false]]) (List.replicate 15 (.t 0))).sh.rets =
       [⟨.drain, 0, .ok, false⟩, ⟨.send, 0, .ok, false⟩] := by decide
 
+/-- the hypothesis of `oracle_holds_of_model` is satisfiable: the example, after the receiver ran -/
+example : endState (run (init exampleProgs) (exampleSched ++ [.recv, .recv, .setStatus 5, .rxClose, .rxFlush])) = true := by
+  decide
+
 end C07
 
 #print axioms C07.send_after_close_rejected
@@ -208,7 +241,9 @@ end C07
 #print axioms C07.messages_precede_marker
 #print axioms C07.marker_implies_closed_and_idle
 #print axioms C07.drain_completes
+#print axioms C07.drained_exit_handled_everything
 #print axioms C07.repeated_drain_changes_nothing
+#print axioms C07.oracle_holds_of_model
 #print axioms C07.src_status_discriminants
 #print axioms C07.src_admission_word_layout
 #print axioms C07.src_drain_steps
